@@ -458,7 +458,7 @@ BAD_NAMES = ["/", "b ", " c", "a/b", "x: No such file or directory"]        # ou
 TARGETS = ["/etc/default/grub", "../init.d/netconsole", "./grub.conf", "../file with spaces", "a -> b", "x,y", "..", "/",
            "ÅÍÎ", "total 5", "x:"]
 DIRS = ["/", "/boot", "/boot/grub2", "/etc/sysconfig", "/etc/rc.d/rc3.d", "/var/lib/nova/instances", "/dev/mapper",
-        "/tmp/a b", "/tmp/x:", "/tmp/total 3", "/mnt/Ünï", "/etc", "/tmp/-", "/dev", "/tmp/a/"]
+        "/tmp/a b", "/tmp/x:", "/tmp/total 3", "/mnt/Ünï", "/etc", "/tmp/-", "/dev", "/sys/firmware", "/proc/1"]
 
 
 def rand_doc(rng):
@@ -469,6 +469,11 @@ def rand_doc(rng):
             "parse": rng.choice(["", "/some/root"])}[cls]
     ndirs = 1 if hl else rng.choice([1, 1, 2, 3, 4])
     dnames = rng.sample(DIRS, ndirs)
+    # one listing in twenty-five is deliberately outside Admits (TLC must say so): a directory named with a
+    # trailing slash, an inadmissible entry name, a four-digit major number
+    bad = rng.choice(["slash", "name", "major"]) if rng.random() < 0.04 else ""
+    if bad == "slash":
+        dnames[0] = "/tmp/a/"
     numeric = rng.random() < 0.5 and fmt != "oldZ"
     dirs = []
     for dn in dnames:
@@ -476,7 +481,7 @@ def rand_doc(rng):
         used = set()
         for _ in range(rng.choice([0, 1, 2, 3, 5, 8])):
             name = rng.choice(TRICKY) if rng.random() < 0.45 else rng.choice(WORDS)
-            if rng.random() < 0.01:
+            if bad == "name" and not ents:
                 name = rng.choice(BAD_NAMES)
             if name in used:
                 continue
@@ -490,7 +495,7 @@ def rand_doc(rng):
             ents.append(dict(t=t, perms=list(rng.choice(PERMS[t])), mark=list(rng.choice(["", ".", ".", "+"])),
                              links=rng.choice([1, 2, 19, 102]), owner=list(rng.choice(pool)), group=list(rng.choice(pool)),
                              size=rng.choice([0, 6, 4096, 123891, INT_MAX]),
-                             major=rng.choice([1, 10, 253, 999]) if rng.random() < 0.97 else 1000,
+                             major=1000 if bad == "major" else rng.choice([1, 10, 253, 999]),
                              minor=rng.choice([0, 10, 236, 1048575]),
                              date=list(draw_date(rng, rng.choice(["Jul  6 23:32", "Jul 16 23:32", "Sep 16  2015", "Sep  6  2015"]))),
                              name=list(name), target=list(rng.choice(TARGETS)) if t == "l" else [], ctx=list(ctx)))
@@ -591,10 +596,14 @@ def populate(d, rng, depth, now):
             elif k == "p":
                 os.mkfifo(p)
             else:
+                # bound by its relative name: the absolute path may exceed what a socket address holds
                 s = socket.socket(socket.AF_UNIX)
+                here = os.getcwd()
                 try:
-                    s.bind(p)
+                    os.chdir(d)
+                    s.bind(name)
                 finally:
+                    os.chdir(here)
                     s.close()
         except OSError:
             continue
